@@ -20,6 +20,7 @@ enum KeyPart {
     Null,
     Bool(bool),
     Int64(i64),
+    Float64(u64),
     String(String),
 }
 
@@ -36,7 +37,7 @@ impl RowKey {
                         Value::Null => KeyPart::Null,
                         Value::Bool(b) => KeyPart::Bool(b),
                         Value::Int64(i) => KeyPart::Int64(i),
-                        Value::Float64(f) => KeyPart::Int64(f.to_bits() as i64),
+                        Value::Float64(f) => KeyPart::Float64(f.to_bits()),
                         Value::String(s) => KeyPart::String(s.to_string()),
                         _ => KeyPart::String(format!("{v:?}")),
                     })
